@@ -15,7 +15,7 @@ FUNCTIONS = [_M + m for m in (
     'remove_type', 'remove_var', 'remove_func', 'remove_lambda', 'remove_class', 'remove_namespace',
     '_get_declarations', 'get_types', 'get_funcs', 'get_lambdas', 'get_vars', 'get_classes', 'get_declarations',
     'find_namespaces', 'get_decl', 'get_lambda', 'get_namespace', 'get_parent', 'get_parent_class',
-    'get_declarations_in')] + [
+    'get_declarations_in', '_get_declarations_glob', 'get_namespaces_decls')] + [
     'src.utils.prefix_lst', 'src.ir.context.get_decl.stop_cond', 'src.ir.context.get_decl']
 TRUSTED = [
     'declarations are modelled as an abstract sort: == / hash of a declaration is a congruence (identity for AST '
@@ -25,10 +25,9 @@ TRUSTED = [
     'function of the abstract view (each proved here per operation)',
 ]
 ASSUMPTIONS = [
-    '_get_declarations_glob (worklist without visited set) is NOT proved: its contract GlobDecls is assumed by '
-    '_get_declarations and cross-checked only by the bounded stand-in (random operation histories)',
+    'termination of the two worklist loops (_get_declarations_glob, get_namespaces_decls) is not proved (no visited set; terminates because child namespaces are strictly longer and only finitely many exist)',
 ]
-NOT_UNDER_CONTRACT = ['src.ir.context.Context._get_declarations_glob (trusted contract, bounded)', 'src.ir.context.Context.get_namespaces_decls', 'src.ir.context.Context.get_decl_type']
+NOT_UNDER_CONTRACT = ['src.ir.context.Context.get_decl_type']
 
 
 def _load():
@@ -97,6 +96,13 @@ def run_history(ctxmod, ref, ops, queries=True):
                         return ('global query keys', step, q, k, none, repr(sorted(got)), repr(sorted(g)))
                     if not none and not set(got) <= {kk for kk, vs in g.items() if any(v is not None for v in vs)}:
                         return ('global query keys (real)', step, q, k, none, repr(sorted(got)), repr(g))
+            for k in ('funcs', 'classes', 'vars'):
+                for nm in (NAMES[step % len(NAMES)], NAMES[(step + 3) % len(NAMES)] + '_' + k):
+                    for gl in (True, False):
+                        got = c.get_namespaces_decls(q, nm, k, glob=gl)
+                        exp = ref.ns_decls(m, q, nm, k, gl)
+                        if len(got) != len(exp) or not all(any(a[0] == b[0] and a[1] is b[1] for b in exp) for a in got):
+                            return ('get_namespaces_decls', step, q, (nm, k), gl, repr(sorted(map(repr, got))), repr(exp))
             for nm in NAMES:
                 for n2 in (nm, nm + '_vars', nm + '_funcs', nm + '_classes'):
                     a = ctxmod.get_decl(c, q, n2)
@@ -157,8 +163,7 @@ def bounded(tier, seed, stop_first=False):
                      'compared with specs/ctx_ref.py; a history is non-trivial if it has >= 1 add (all are), distinct by '
                      'operation list' % (n, steps),
                 samples=samples, violations=violations,
-                note='engine cross-check for the proved operations; the only evidence for _get_declarations_glob '
-                     '(trusted contract) and get_namespaces_decls')
+                note='engine cross-check for the proved operations (never counted as proof)')
 
 
 def replay_search(obligation, qual, seed, tier):
